@@ -51,15 +51,15 @@ THEOREMS = [
     "Poupool.C19.percentage_exact_without_overflow",
     "Poupool.C19.percentage_wraps_counterexample",
     # (b) motor
-    "Poupool.C19.pins_low_iff_stop_partial",
-    "Poupool.C19.pins_low_iff_stop_counterexample",
-    "Poupool.C19.stuck_pin_stays_high",
+    "Poupool.C19.pins_low_iff_stop",
+    "Poupool.C19.stop_reaches_pins_at_next_iteration",
+    "Poupool.C19.isr_stop_in_delay_regression",
     "Poupool.C19.isr_step_at_end_point_stops",
     "Poupool.C19.envelope_after_ensure_consistency",
     "Poupool.C19.stall_check_emergency_stop",
     "Poupool.C19.stall_window_timed",
     "Poupool.C19.stop_command_sets_stop",
-    "Poupool.C19.stop_command_lowers_pins_partial",
+    "Poupool.C19.stop_command_lowers_pins",
     # (d) parser
     "Poupool.C19.driver_accepts_position_reply",
     "Poupool.C19.driver_accepts_water_reply",
@@ -68,7 +68,8 @@ THEOREMS = [
 
 RACE_KEY = "cover.ino:process_direction:isr-stop-lost-in-relay-delay"
 
-# the witness of `pins_low_iff_stop_counterexample` (Properties/C19.lean), replayed on the host build on every run
+# regression stream: the witness of the defect fixed by /repo 124518d (`isr_stop_in_delay_regression` in Properties/C19.lean):
+# a STOP raised by the ISR inside delay() was lost for ever; replayed on the host build and monitored on every run
 RACE_WITNESS = ["E 97 0 100"] + [f"B {b}" for b in b"open"] + ["D 4", "B 10", "L 20", "P", "L 20"] + [f"B {b}" for b in b"stop\n"] + ["L 600", "T 20", "P", "L 4000", "Q"]
 LONGLINE_WITNESS = ["E 50 0 100"] + [f"B {65 + i % 26}" for i in range(32)] + [f"B {b}" for b in b"open\n"] + ["Q"]
 
@@ -82,7 +83,7 @@ I32 = 1 << 31
 
 def build_host():
     with FileLock("firmware_build"):
-        p = subprocess.run(["sh", os.path.join(FW, "build.sh")], capture_output=True, text=True, env={**os.environ, "POUPOOL_REPO": REPO})
+        p = subprocess.run(["sh", os.path.join(FW, "build.sh")], capture_output=True, text=True, timeout=600, env={**os.environ, "POUPOOL_REPO": REPO})
     return p.returncode == 0, (p.stdout + p.stderr)
 
 
@@ -382,6 +383,7 @@ def monitor(events_out, consts=None):
     in_step = True  # the firmware's buffer was empty right after the previous newline (statement: always)
     pending_d = 0
     race_stuck = False
+    race_armed = False
     drive = None  # (pins, t_start, [pulse times], [loop times])
     for i, raw in enumerate(events_out):
         pl = parse_line(raw)
@@ -435,16 +437,17 @@ def monitor(events_out, consts=None):
             energised = f["po"] or f["pc"]
             # (b) pins: STOP at the end of the previous iteration and still STOP now, no emergency stop in this one
             #     => process_direction of this iteration saw STOP => both pins LOW
-            if delayed and pending_d > 0 and f["d"] == "S" and nem == 0 and energised and not race_stuck:
-                # the ISR set STOP inside delay(): right after process_direction direction = STOP with a pin HIGH
-                race_stuck = True
-                viol.append((RACE_KEY, "direction STOP (set by the ISR inside delay()) but a motor pin stays HIGH", i))
-            elif last_loop is not None and last_loop["d"] == "S" and f["d"] == "S" and nem == 0 and energised:
-                if pending_d > 0 or race_stuck:
+            if last_loop is not None and last_loop["d"] == "S" and f["d"] == "S" and nem == 0 and energised and not delayed:
+                # STOP at the end of the previous iteration must have reached the pins in this one (an iteration in
+                # which delay() ran has seen OPEN/CLOSE in process_direction: its pins are legitimately HIGH)
+                if race_armed or race_stuck:
                     race_stuck = True
-                    viol.append((RACE_KEY, "direction STOP (set by the ISR inside delay()) but a motor pin stays HIGH", i))
+                    viol.append((RACE_KEY, "a STOP raised by the ISR inside delay() did not reach the pins at the next process_direction: direction STOP, motor pin HIGH", i))
                 else:
                     viol.append(("motor-pin-high-while-stopped", f"direction STOP, pins open={f['po']} close={f['pc']}", i))
+            # the ISR set STOP inside delay(): direction STOP with a pin HIGH right after process_direction is allowed
+            # for exactly one loop period
+            race_armed = bool(delayed and pending_d > 0 and f["d"] == "S" and nem == 0 and energised)
             if not energised:
                 race_stuck = False
             if f["d"] != "S" and not energised and nem == 0 and last_loop is not None and last_loop["d"] == f["d"]:
@@ -632,7 +635,7 @@ def run(chk):
     if not quick and proofs_ok:
         t0 = time.time()
         try:
-            with FileLock("lake"):
+            if True:  # reads .olean files only; builds are serialised by vlib.lean.build (check_theorems above)
                 p = subprocess.run(["lake", "env", "leanchecker", "Poupool.Model.Firmware", "Poupool.Proofs.Firmware", "Poupool.Proofs.FirmwareMotor", "Poupool.Proofs.FirmwareProto", "Poupool.Properties.C19"], cwd=LEAN_DIR, capture_output=True, text=True, timeout=1200)
             chk.obligation("leanchecker Poupool.Model.Firmware Poupool.Proofs.Firmware* Poupool.Properties.C19", p.returncode == 0, (p.stdout + p.stderr)[-800:])
             chk.checker_cmds.append("lake env leanchecker Poupool.Model.Firmware Poupool.Proofs.Firmware Poupool.Proofs.FirmwareMotor Poupool.Proofs.FirmwareProto Poupool.Properties.C19")
@@ -778,8 +781,8 @@ def run(chk):
         chk.extra[k] = round(v, 1)
     broken_all = list(chk.broken)
     if RACE_KEY in seen and race_full is not None:
-        # report the full witness of Properties/C19.lean (`pins_low_iff_stop_counterexample`): it also shows the `stop`
-        # command not stopping the motor and the missing emergency stop
+        # report the full regression stream (`isr_stop_in_delay_regression`): it also shows the `stop` command not
+        # stopping the motor and the missing emergency stop
         seen[RACE_KEY] = (seen[RACE_KEY][0] + "; afterwards neither `stop` nor the stall check lowers the pin",) + race_full
     for key, (what, label, evs, tail) in sorted(seen.items()):
         chk.violation(key, what, {"events": evs, "stream_class": label, "host_trace_tail": tail, "how": "./check C19 --replay <this file>", "explains": broken_all if key != RACE_KEY else []})
